@@ -118,12 +118,13 @@ var Reps = map[string][]string{
 	"kind":  {"named", "int64", "int"},
 	"small": {"int32", "int64", "int"},
 	"flag":  {"bool"},
+	"note":  {"implicit"}, // implicitnull column: the Go zero value "" denotes NULL
 }
 
 // Domains lists the values filters are drawn from, per column.
 var Domains = map[string][]string{
 	"id": {"1", "2", "3", "4", "9"}, "org": {"1", "2"}, "name": {"a", "b", "c", "zz"}, "age": {"5", "6", "7"}, "nick": {"x", "y"},
-	"kind": {"0", "1"}, "small": {"0", "1"}, "flag": {"0", "1"},
+	"kind": {"0", "1"}, "small": {"0", "1"}, "flag": {"0", "1"}, "note": {"NULL", "n"},
 }
 
 // Go builds the Go value for (column, FVal).
@@ -145,6 +146,11 @@ func Go(col string, f FVal) interface{} {
 		return Kind(n)
 	case "bool":
 		return n == 1
+	case "implicit":
+		if f.V == "NULL" {
+			return ""
+		}
+		return f.V
 	case "string":
 		return f.V
 	case "label":
